@@ -19,11 +19,7 @@ theorem postLoop_kept_congr (asn4 : Bool) (a b : LoopSt) (hk : a.kept = b.kept) 
   rw [ht, hk]
   split
   · exact hk
-  · split
-    · rfl
-    · split
-      · rfl
-      · exact hk
+  · split <;> rfl
 
 theorem blockOf_of_split {body w blk n : Bytes} (h : splitBody body = .ok (w, blk, n)) : blockOf body = blk := by
   simp [blockOf, h]
